@@ -1,0 +1,11 @@
+//go:build verif
+
+package vuego
+
+// Thin read-only wrappers around unexported functions, compiled only with
+// `-tags verif` (used by the external verification harness). No existing line
+// of the package is touched; without the tag this file does not exist for the
+// compiler.
+
+// VerifSplitPath exposes splitPathImpl.
+func VerifSplitPath(expr string) []string { return splitPathImpl(expr) }
